@@ -203,6 +203,22 @@ PROPS["C04"] = dict(
     thorough=dict(shards=16, timeout=3000),
 )
 
+PROPS["C07"] = dict(
+    pkg="c07", level="exploration", design_ref="DESIGN.md section 3, C07",
+    technique="rapid-generated (method, name spelling, argument list, headers, result shape, codec options on both sides) round trips through the real client and service codecs; envelope grammar checked by the independent reader",
+    level_text=("Round-trip property over the codec pair: for a catalogue of 21 published functions covering every signature shape, generated argument lists (exact, fewer, surplus, "
+                "variadic tails; values of the parameter types from the C01 generators, repeated strings across segments) and headers are encoded by the client codec and decoded by "
+                "the service codec under independently drawn options on the two sides; results (none, one, several with values repeated across results, error, panic error) go the "
+                "other way. Name, resolved method, headers, argument/result count, dynamic types and values (neutral node space) must agree, and request/response bytes must follow "
+                "the envelope grammar with the reference table reset at segment boundaries. The JSON-RPC codec pair is exercised with JSON-representable values."),
+    level_note="Values behind interface{} parameters are restricted to those that mean the same under every LongType/RealType/MapType setting; the reserved 'simple' header is excluded from the header comparison as the statement says.",
+    rule=("request / response: rapid-drawn cases; non-trivial = at least one argument or header (request) / a value, error or panic (response) and a non-default option on either side. "
+          "jsonrpc: JSON-safe values. Classes: argument shape (exact/fewer/surplus/variadic), the four Simple pairs, result kinds. Distinct by case text."),
+    assumptions=["struct types of the catalogue are registered", "time.Local pinned to a fixed zone"],
+    quick=dict(shards=4, timeout=600),
+    thorough=dict(shards=16, timeout=2400),
+)
+
 # properties not claimed yet (kept current as checks land)
 _ALL = ["C%02d" % i for i in range(1, 21)]
 NOT_APPLICABLE = [dict(property_id=p, reason="check not built yet in this revision (planned in DESIGN.md section 3); not a limit of the technique")
